@@ -266,8 +266,11 @@ Section Spec.
   Definition import_resolve (user : list str) (dir : path) (x : str) : nres :=
     let conds := esm_conds user in
     if prefixb (s_ "/") x then esm_file_check (abs_path x)
-    else if prefixb (s_ "./") x || prefixb (s_ "../") x then
-      if suffixb (s_ "/") x then NNotFound else esm_file_check (join_rel dir x)
+    else if prefixb (s_ "./") x || prefixb (s_ "../") x || str_eqb x (s_ ".") || str_eqb x (s_ "..") then
+      (* DOC-DEVIATION: Node also treats "." and ".." as relative.  URL resolution
+         leaves a trailing "/" for a final "", "." or ".." segment: a directory, never a file *)
+      if suffixb (s_ "/") x || suffixb (s_ "/.") x || suffixb (s_ "/..") x || str_eqb x (s_ ".") || str_eqb x (s_ "..")
+      then NNotFound else esm_file_check (join_rel dir x)
     else if prefixb (s_ "#") x then
       if str_eqb x (s_ "#") || prefixb (s_ "#/") x then NRejected EInvalidSpecifier
       else
